@@ -16,7 +16,7 @@ LEVEL_TEXT = (
     'necessary conditions; termination and schedule independence as theorems are NOT decided.')
 
 FLOORS = {'C05-R1': 6, 'C05-R2': 5, 'C05-R3': 1, 'C05-R4': 2, 'C05-R5': 2, 'C05-R6': 4,
-          'C05-R7': 4, 'C05-R8': 3, 'C05-R9': 1, 'C05-R10': 2, 'C05-R11': 3, 'C12-R6': 4, 'C12-R7': 5, 'C01-R7': 5, 'C01-R10': 4}
+          'C05-R7': 4, 'C05-R8': 3, 'C05-R9': 1, 'C05-R10': 2, 'C05-R11': 3, 'C05-R12': 2, 'C12-R6': 4, 'C12-R7': 5, 'C01-R7': 5, 'C01-R10': 4}
 
 BLOCKING = ('thread::sleep', 'JoinHandle::join', 'Receiver::recv', 'Receiver::recv_timeout',
             'Thread::park', 'thread::park', 'Condvar::wait', 'Condvar::wait_for', 'Condvar::wait_until',
@@ -608,6 +608,28 @@ def run(ctx):
     ctx.doc('C05-R10', 'JobBroker::new: open_count and thread_count start as the thread_count parameter; open = true')
     with ctx.rule('C05-R10', 'new'):
         r10_initial_market(ctx, F)
+    ctx.doc('C05-R12', 'the initial jobs are on the market before the first worker is started (a market that is empty '
+                       'while every worker is idle is taken for "the check is finished" and closed; a push to a closed '
+                       'market is dropped)')
+    import roles
+    from checkers import Spawn
+    for strat in ('BFS', 'DFS'):
+        with ctx.rule('C05-R12', strat):
+            sp = Spawn(F, strat)
+            s_ = F.norm(sp.b)
+            ctx.touched(sp.b)
+            pushes = roles.calls_role(F, s_, 'push')
+            starts = s_.calls_to('Builder::spawn', 'thread::spawn', 'Builder::spawn_scoped', 'Scope::spawn')
+            if not pushes or not starts:
+                raise AnchorMissing('%s spawn: JobBroker::push of the initial jobs / thread start (found %d / %d)' %
+                                    (strat, len(pushes), len(starts)))
+            ok = all(any(s_.dominates(p_.bb, t_.bb) for p_ in pushes) for t_ in starts)
+            ctx.check(ok, 'C05-R12', 'initial-work-published-before-workers-start', sp.b,
+                      good='the initial jobs are pushed before any worker thread is started',
+                      bad='%s spawn starts a worker before the initial jobs are pushed: if every worker reaches pop() '
+                          'first, the last one finds the market empty with nobody running, closes it, and the push '
+                          'that follows is dropped - join() returns a "completed" check that evaluated nothing' %
+                          strat, span=pushes[0].span)
     ctx.doc('C05-R11', 'on-demand control path is lossless: blocking sends only, forwarder reaches every worker channel, '
                        'workers wait in a blocking recv')
     with ctx.rule('C05-R11', 'on_demand'):
